@@ -243,6 +243,11 @@ class Terms(object):
         for h, v in self.hyps:
             if h == t:
                 return v
+            # a < b decided  =>  b <= a is its complement (and vice versa)
+            if h[0] == "cmp" and t[0] == "cmp" and \
+                    {h[1], t[1]} == {"Lt", "LtE"} and h[2] == t[3] and \
+                    h[3] == t[2]:
+                return not v
             # x is None decided => truthiness / equality of x with None
             if h[0] == "cmp" and h[1] == "Is" and \
                     ("const", None) in (h[2], h[3]):
@@ -749,7 +754,9 @@ class Terms(object):
                     valid = set(id(x[2]) for x in self.flow.facts(node))
                 if id(a) not in valid:
                     continue
-            out.append(c)
+            for x in split_cond(*c):
+                if x not in out:
+                    out.append(x)
         return out
 
     # -- variables -------------------------------------------------------------
